@@ -1,10 +1,16 @@
 // L2: radix string encoding (src/uint/encoding.rs) -- C17, encode side
-// body (proved): radix_encode_limbs_to_string (stack / heap buffer selection), Uint::to_string_radix_vartime, Uint::as_limbs_mut,
-//   RadixDivisionParams::encoded_size; lemma_radix_roundtrip: numeral_val(canon_numeral(v, r), r) == Some(v) (parse . format == id, at the
-//   level of the two contracts), lemma_canon_digits (no leading zero, no separators).
-// stub (ASSUMED, exact contracts): radix_encode_limbs_mut_to_string (result == canonical numeral of the value; vec! / copy_within / truncate /
-//   String::from_utf8), RadixDivisionParams::encode_limbs and radix_encode_limbs_by_shifting (out == the out.len() low-order digits, zero
-//   padded), RadixDivisionParams::for_radix, radix_large_divisor; shim vec_prefix_mut (= `&mut vec[..n]`). `const ALL` is not mirrored.
+// body (proved): radix_encode_limbs_mut_to_string (buffer size is sufficient for every value -- pow2 radix: ceil(64 len / bits) digits, other
+//   radix: len (digits_limb + 1) digits --, leading zeros stripped, "0" for zero: result == canonical numeral of the value),
+//   radix_encode_limbs_to_string (stack / heap buffer selection), Uint::to_string_radix_vartime, Uint::as_limbs_mut,
+//   RadixDivisionParams::encoded_size, RadixDivisionParams::for_radix (table lookup `radix + leading_zeros - 33`, over the ASSUMED table ALL()),
+//   radix_large_divisor (result == radix^digits, largest such power that fits 32 limbs, top limb non-zero);
+//   lemma_radix_roundtrip: numeral_val(canon_numeral(v, r), r) == Some(v) (parse . format == id at the level of the two contracts),
+//   lemma_canon_digits (no leading zero, no separators), lemma_strip_zeros, lemma_size_pow2 / lemma_size_div.
+// stub (ASSUMED, exact contracts): RadixDivisionParams::encode_limbs and radix_encode_limbs_by_shifting (out == the out.len() low-order digits of
+//   the value, zero padded). by_shifting iterates `limbs.iter().chain([&Limb::ZERO])` (core::iter::Chain: no vstd spec, `chain` is a provided
+//   trait method and cannot be given one); encode_limbs needs `PartialEq` / `PartialOrd` / `BitOrAssign for Limb` (in no unit yet).
+// assumed library specs: u32::is_power_of_two, String::from_utf8 (+ FromUtf8Error), usize::div_ceil (l4_safegcd); shims vec_prefix_mut
+//   (= `&mut vec[..n]`), vec_all_mut (= `&mut vec[..]`); hand-declared table `RadixDivisionParams::ALL()` (stands for `const ALL`, not mirrored).
 use vstd::prelude::*;
 use vstd::arithmetic::power::*;
 use vstd::arithmetic::power2::*;
@@ -21,6 +27,8 @@ use crate::l2_core::*;
 use crate::l2_encoding_radix::*;
 use crate::l3_divlimb::*;
 use crate::l7_boxed_div::*;
+#[allow(unused_imports)]
+use crate::l4_safegcd::*;   // holds the assumed specification of `usize::div_ceil` (one per crate)
 verus! {
 
 // ---------------------------------------------------------------- spec vocabulary: canonical numerals
@@ -322,15 +330,226 @@ pub fn radix_encode_limbs_by_shifting(radix: u32, limbs: &mut [Limb], out: &mut 
     unimplemented!()
 }
 //@@ end
-//@@ fn src/uint/encoding.rs | - | radix_encode_limbs_mut_to_string | stub | props C17 C11
+// ---- library functions without a vstd specification (assumed)
+/// `u32::is_power_of_two`: exactly one bit set
+pub assume_specification [u32::is_power_of_two] (x: u32) -> (r: bool)
+    ensures r == (x != 0 && x & ((x - 1) as u32) == 0);
+#[verifier::external_type_specification]
 #[verifier::external_body]
+pub struct ExFromUtf8Error(std::string::FromUtf8Error);
+/// `String::from_utf8` on ASCII bytes succeeds and yields the same characters
+pub assume_specification [String::from_utf8] (v: Vec<u8>) -> (r: Result<String, std::string::FromUtf8Error>)
+    ensures (forall|k: int| 0 <= k < v@.len() ==> v@[k] < 128) ==> r is Ok && r->Ok_0@ == ascii_chars(v@);
+// `&mut out[..]` on a Vec: see vec_prefix_mut below (Vec range IndexMut is unspecified in vstd); routed through this shim by subst.
+#[verifier::external_body]
+pub fn vec_all_mut(v: &mut Vec<u8>) -> (r: &mut [u8])
+    ensures r@ == old(v)@, final(v)@ == final(r)@
+{ &mut v[..] }
+
+pub proof fn lemma_pow_base_mono(a: int, b: int, n: nat)
+    requires 0 <= b <= a
+    ensures 0 <= pow(b, n) <= pow(a, n)
+    decreases n
+{
+    reveal(pow);
+    if n > 0 {
+        lemma_pow_base_mono(a, b, (n - 1) as nat);
+        let (x, y) = (pow(a, (n - 1) as nat), pow(b, (n - 1) as nat));
+        assert(0 <= b * y <= a * x) by (nonlinear_arith) requires 0 <= b <= a, 0 <= y <= x;
+    }
+}
+
+/// the buffer of a power-of-two radix 2^bits is large enough: (2^bits)^ceil(64 len / bits) >= B^len
+pub proof fn lemma_size_pow2(r: int, bits: nat, len: nat, size: nat)
+    requires 1 <= bits <= 5, r == pow2(bits), size as int == (64 * len + bits - 1) / (bits as int)
+    ensures pow(r, size) >= bp(len), len >= 1 ==> size >= 1
+{
+    lemma_pow2(bits); lemma_pow_multiplies(2, bits, size);
+    lemma_fundamental_div_mod(64 * len + bits - 1, bits as int);
+    assert(bits * size >= 64 * len) by (nonlinear_arith)
+        requires 64 * len + bits - 1 == (bits as int) * (size as int) + (64 * len + bits - 1) % (bits as int), 0 <= (64 * len + bits - 1) % (bits as int) < bits;
+    lemma_bp_pow2(len); lemma_pow2(64 * len);
+    if bits * size > 64 * len { lemma_pow_increases(2, 64 * len, bits * size); }
+    if len >= 1 && size == 0 { assert(bits * size == 0) by (nonlinear_arith) requires size == 0; }
+}
+
+/// the buffer of any other radix is large enough: r^(len (dl + 1)) >= B^len when r^(dl + 1) > B - 1
+pub proof fn lemma_size_div(r: int, dl: nat, len: nat)
+    requires r >= 2, pow(r, dl + 1) > u64::MAX
+    ensures pow(r, len * (dl + 1)) >= bp(len)
+{
+    lemma_pow_multiplies(r, dl + 1, len);
+    lemma_pow_base_mono(pow(r, dl + 1), B(), len);
+    assert((dl + 1) * len == len * (dl + 1)) by (nonlinear_arith);
+}
+
+pub proof fn lemma_digits_fixed_zero(r: int, n: nat)
+    requires r >= 2
+    ensures digits_fixed(0, r, n).len() == n, forall|k: int| 0 <= k < n ==> digits_fixed(0, r, n)[k] == 0x30
+    decreases n
+{
+    if n > 0 {
+        lemma_digits_fixed_zero(r, (n - 1) as nat);
+        let rn = r as nat;
+        assert(0nat / rn == 0 && 0nat % rn == 0) by (nonlinear_arith) requires rn >= 2;
+    }
+}
+
+pub proof fn lemma_digits_fixed_ascii(v: nat, r: int, n: nat)
+    requires 2 <= r <= 36
+    ensures digits_fixed(v, r, n).len() == n, forall|k: int| 0 <= k < n ==> digits_fixed(v, r, n)[k] < 128
+    decreases n
+{
+    if n > 0 {
+        let rn = r as nat;
+        lemma_digits_fixed_ascii((v / rn) as nat, r, (n - 1) as nat);
+        assert(0 <= v % rn < rn) by (nonlinear_arith) requires rn >= 2;
+    }
+}
+
+/// for v < r^n the fixed-width digits are the canonical digits of v, left-padded with '0'
+pub proof fn lemma_digits_fixed_canon(v: nat, r: int, n: nat)
+    requires 2 <= r <= 36, v < pow(r, n)
+    ensures ({ let d = digits_fixed(v, r, n); let c = canon_digits(v, r);
+        c.len() <= n && d.len() == n && (forall|j: int| 0 <= j < n - c.len() ==> d[j] == 0x30) && d.subrange(n - c.len(), n as int) =~= c })
+    decreases n
+{
+    reveal(pow);
+    let rn = r as nat;
+    if n == 0 { assert(v == 0); }
+    else if v == 0 { lemma_digits_fixed_zero(r, n); }
+    else {
+        let q = (v / rn) as nat; let m = (v % rn) as int;
+        lemma_fundamental_div_mod(v as int, r);
+        let pn = pow(r, (n - 1) as nat);
+        assert(q < pn) by (nonlinear_arith) requires v < r * pn, v == r * q + m, 0 <= m, r >= 2;
+        lemma_digits_fixed_canon(q, r, (n - 1) as nat);
+        let d0 = digits_fixed(q, r, (n - 1) as nat); let c0 = canon_digits(q, r);
+        let d = digits_fixed(v, r, n); let c = canon_digits(v, r);
+        assert(d == d0.push(digit_char(m))); assert(c == c0.push(digit_char(m)));
+        assert forall|j: int| 0 <= j < n - c.len() implies d[j] == 0x30 by { assert(d[j] == d0[j]); }
+        assert(d.subrange(n - c.len(), n as int) =~= c) by {
+            assert forall|j: int| 0 <= j < c.len() implies d.subrange(n - c.len(), n as int)[j] == c[j] by {
+                if j < c0.len() { assert(d0.subrange(n - 1 - c0.len(), n - 1)[j] == c0[j]); }
+            }
+        }
+    }
+}
+
+/// dropping the leading '0's (but not the last character) of the fixed-width digits gives the canonical numeral
+pub proof fn lemma_strip_zeros(v: nat, r: int, n: nat, skip: int)
+    requires 2 <= r <= 36, n >= 1, v < pow(r, n), 0 <= skip < n,
+        forall|k: int| 0 <= k < skip ==> digits_fixed(v, r, n)[k] == 0x30,
+        skip + 1 == n || digits_fixed(v, r, n)[skip] != 0x30
+    ensures digits_fixed(v, r, n).subrange(skip, n as int) =~= canon_numeral(v, r)
+{
+    let d = digits_fixed(v, r, n); let c = canon_digits(v, r);
+    lemma_digits_fixed_canon(v, r, n);
+    if v > 0 {
+        lemma_canon_digits(v, r);
+        let z = n - c.len();
+        assert(d.subrange(z, n as int)[0] == c[0]);
+        assert(d[z] != 0x30);
+        assert(skip == z);
+    } else {
+        lemma_digits_fixed_zero(r, n);
+        assert(skip == n - 1);
+    }
+}
+
+pub proof fn lemma_radix_bits(radix: u32)
+    requires 2 <= radix <= 36
+    ensures (radix != 0 && radix & ((radix - 1) as u32) == 0) == is_pow2_radix(radix as int),
+        is_pow2_radix(radix as int) ==> 1 <= u32_trailing_zeros(radix) <= 5 && radix as int == pow2(u32_trailing_zeros(radix) as nat)
+{
+    let m = (radix - 1) as u32;
+    assert(2 <= radix && radix <= 36 && m == radix - 1 ==> ((radix & m == 0) == (radix == 2 || radix == 4 || radix == 8 || radix == 16 || radix == 32))) by (bit_vector);
+    if is_pow2_radix(radix as int) {
+        axiom_u32_trailing_zeros(radix);
+        let t = u32_trailing_zeros(radix);
+        assert(t < 32 && (radix >> t) & 1u32 == 1u32 ==> (radix == 2 ==> t == 1) && (radix == 4 ==> t == 2) && (radix == 8 ==> t == 3) && (radix == 16 ==> t == 4) && (radix == 32 ==> t == 5)) by (bit_vector);
+        lemma2_to64();
+    }
+}
+
+//@@ subst &mut out\[\.\.\] => vec_all_mut(&mut out)
+//@@ fn src/uint/encoding.rs | - | radix_encode_limbs_mut_to_string | body | props C17 C11
 pub fn radix_encode_limbs_mut_to_string(radix: u32, limbs: &mut [Limb]) -> (ret__: String)
 //@+
-    requires 2 <= radix <= 36, old(limbs)@.len() >= 1
+    requires 2 <= radix <= 36, 1 <= old(limbs)@.len() <= usize::MAX / 64
     ensures ret__@ == ascii_chars(canon_numeral(val(old(limbs)@, old(limbs)@.len()) as nat, radix as int))
 //@-
 {
-    unimplemented!()
+//@+
+    let ghost r = radix as int; let ghost len = limbs@.len(); let ghost v = val(limbs@, len) as nat;
+    proof { lemma_radix_bits(radix); lemma_val_bound(limbs@, len); }
+//@-
+    if !(RADIX_ENCODING_MIN..=RADIX_ENCODING_MAX).contains(&radix) {
+        panic!("unsupported radix");
+    }
+    let mut out;
+    if radix.is_power_of_two() {
+        let bits = radix.trailing_zeros() as usize;
+//@+
+        assert(limbs.len() * (Limb::BITS as usize) == 64 * limbs.len()) by (nonlinear_arith) requires Limb::BITS == 64;
+//@-
+        let size = (limbs.len() * Limb::BITS as usize).div_ceil(bits);
+//@+
+        proof { lemma_size_pow2(r, bits as nat, len, size as nat); }
+//@-
+        out = vec![0u8; size];
+        radix_encode_limbs_by_shifting(radix, limbs, vec_all_mut(&mut out));
+//@+
+        assert(out@ == digits_fixed(v, r, size as nat));
+        assert(size >= 1 && v < pow(r, size as nat));
+        proof { lemma_digits_fixed_ascii(v, r, size as nat); }
+        assert(out@.len() == size);
+//@-
+    } else {
+        let params = RadixDivisionParams::for_radix(radix);
+//@+
+        proof {
+            lemma_size_div(r, params.digits_limb as nat, len);
+            assert(len * (params.digits_limb + 1) <= len * 64) by (nonlinear_arith) requires params.digits_limb <= 63;
+        }
+//@-
+        let size = params.encoded_size(limbs.len());
+        out = vec![0u8; size];
+        params.encode_limbs(limbs, vec_all_mut(&mut out));
+//@+
+        assert(out@ == digits_fixed(v, r, size as nat));
+        assert(size >= 1) by (nonlinear_arith) requires size == len * (params.digits_limb + 1), len >= 1;
+        assert(v < pow(r, size as nat));
+        proof { lemma_digits_fixed_ascii(v, r, size as nat); }
+        assert(out@.len() == size);
+//@-
+    }
+    let size = out.len();
+    let mut skip = 0;
+//@+
+    let ghost d = out@;
+    assert(d == digits_fixed(v, r, size as nat) && size >= 1 && v < pow(r, size as nat));
+    proof { lemma_digits_fixed_ascii(v, r, size as nat); }
+//@-
+    while skip + 1 < size && out[skip] == b'0'
+//@+
+        invariant out@ == d, size == d.len(), size >= 1, skip < size, forall|k: int| 0 <= k < skip ==> d[k] == 0x30
+        decreases size - skip
+//@-
+{
+        skip += 1;
+    }
+//@+
+    proof { lemma_strip_zeros(v, r, size as nat, skip as int); }
+//@-
+    if skip > 0 {
+        out.copy_within(skip..size, 0);
+        out.truncate(size - skip);
+    }
+//@+
+    assert(out@ =~= d.subrange(skip as int, size as int));
+//@-
+    String::from_utf8(out).expect("utf-8 decoding error")
 }
 //@@ end
 
@@ -397,7 +616,7 @@ pub fn vec_prefix_mut(v: &mut Vec<Limb>, n: usize) -> (r: &mut [Limb])
 //@@ fn src/uint/encoding.rs | - | radix_encode_limbs_to_string | body | props C17 C11
 pub fn radix_encode_limbs_to_string(radix: u32, limbs: &[Limb]) -> (ret__: String)
 //@+
-    requires 2 <= radix <= 36, limbs@.len() >= 1
+    requires 2 <= radix <= 36, 1 <= limbs@.len() <= usize::MAX / 64
     ensures ret__@ == ascii_chars(canon_numeral(val(limbs@, limbs@.len()) as nat, radix as int))
 //@-
 {
@@ -438,7 +657,7 @@ pub const fn as_limbs_mut(&mut self) -> (ret__: &mut [Limb; LIMBS])
 impl<const LIMBS:usize>Uint<LIMBS> {
 pub fn to_string_radix_vartime(&self, radix: u32) -> (ret__: String)
 //@+
-    requires 2 <= radix <= 36, LIMBS >= 1
+    requires 2 <= radix <= 36, 1 <= LIMBS <= usize::MAX / 64
     ensures ret__@ == ascii_chars(canon_numeral(self.v() as nat, radix as int))
 //@-
 {
